@@ -433,10 +433,22 @@ def replay(ex, model, kind_hint=None):
         return res
     err = run["stderr"]
     if "AddressSanitizer" in err or "runtime error" in err or (run["code"] not in (0,) and "DONE" not in run["stdout"]):
-        res["failed_on_real_code"] = True
         m = re.search(r"(ERROR: AddressSanitizer[^\n]*|runtime error[^\n]*)", err)
-        res["reason"] = "sanitizer/crash on the real code: " + (m.group(1) if m else "exit status %s" % run["code"])
-        res["stderr_tail"] = err[-1500:]
+        what = m.group(1) if m else "exit status %s" % run["code"]
+        # a sanitizer report only counts when it is raised by the function under contract itself: its
+        # precondition says nothing about what callees verified elsewhere (or assumed) need
+        lo, hi = ex.info["lines"]
+        base = os.path.basename(cfront.cpath(ex.fname))
+        locs = [int(x) for x in re.findall(re.escape(base) + r":(\d+)", err)]
+        first = locs[0] if locs else None
+        res["sanitizer"] = what
+        res["sanitizer_line"] = first
+        if first is not None and lo <= first <= hi:
+            res["failed_on_real_code"] = True
+            res["reason"] = "sanitizer/crash on the real code at %s:%d: %s" % (base, first, what)
+            res["stderr_tail"] = err[-1500:]
+        else:
+            res["inconclusive"] = "sanitizer report outside the function under contract (line %s)" % first
         return res
     d = parse_dump(run["stdout"])
     if not d["done"]:
